@@ -466,6 +466,9 @@ class UpdateCollection(Message):
                 yield self._message(UpdateCollection.prefix(withdraws) + UpdateCollection.prefix(attr) + announced)
             else:
                 yield self._message(UpdateCollection.prefix(withdraws) + UpdateCollection.prefix(b'') + announced)
+            # sent: not to be repeated in the first message of the MP families
+            withdraws = b''
+            announced = b''
 
         # Get all families that have MP announces or withdraws
         all_mp_families = set(mp_announces.keys()) | set(mp_withdraws.keys())
@@ -492,30 +495,20 @@ class UpdateCollection(Message):
                     withdraws = b''
                 mp_reach = mprnlri
 
-            if include_withdraw:
-                for mpurnlri in mp_withdraw.packed_unreach_attributes(
-                    negotiated,
-                    msg_size - len(withdraws + announced + mp_reach),
-                ):
-                    if mp_unreach:
-                        yield self._message(
-                            UpdateCollection.prefix(withdraws)
-                            + UpdateCollection.prefix(mp_unreach + attr + mp_reach)
-                            + announced,
-                        )
-                        mp_reach = b''
-                        announced = b''
-                        withdraws = b''
-                    mp_unreach = mpurnlri
-
-            if mp_reach or mp_unreach or withdraws or announced:
+            if mp_reach or withdraws or announced:
                 yield self._message(
-                    UpdateCollection.prefix(withdraws)
-                    + UpdateCollection.prefix(mp_unreach + attr + mp_reach)
-                    + announced,
-                )  # yield mpr/mpur per family
+                    UpdateCollection.prefix(withdraws) + UpdateCollection.prefix(attr + mp_reach) + announced
+                )  # yield mpr per family
             withdraws = b''
             announced = b''
+
+            if include_withdraw and withdraw_nlris:
+                # RFC 4760 section 4: an UPDATE which only carries MP_UNREACH_NLRI needs no other attribute.
+                # The withdraws used to share the last message of the announces, attributes included: when those
+                # left less room than one MP_UNREACH_NLRI the withdraws were never sent.
+                unreach_size = negotiated.msg_size - 19 - 2 - 2
+                for mpurnlri in mp_withdraw.packed_unreach_attributes(negotiated, unreach_size):
+                    yield self._message(UpdateCollection.prefix(b'') + UpdateCollection.prefix(mpurnlri))
 
     def pack_messages(self, negotiated: Negotiated, include_withdraw: bool = True) -> Generator['Update', None, None]:
         """Pack this UpdateCollection into wire-format Update messages.
